@@ -64,11 +64,47 @@ func runC16(c *Ctx) []Violation {
 	w := pickWorld(c, worldOpts{CorpusWeight: 1, GenWeight: 3, Encodings: true})
 	env := baseEnv(c)
 	plan := simio.DrawPlan(c.T, w.Input)
-	fault, class := drawStreamFault(c, w)
 	c.Note("world %s (format %s, input %d bytes); env %s", w.Name, w.Format, len(w.Input), env)
 	c.Note("delivery plan: %s", plan.String())
+	// sweep mode: every fault position of a small input, one fault kind (fault enumeration per world)
+	if len(w.Input) <= 400 && c.T.Chance("c16.sweep", 1, 8) {
+		kind := simio.FaultPersistent
+		extra := 0
+		if c.T.Bool("c16.sweep.transient") {
+			kind = simio.FaultTransient
+			extra = 1 + c.T.Intn("c16.sweep.extra", 40)
+		}
+		c.Note("sweep over all %d fault positions, kind %s", len(w.Input)+1, simio.FaultName(kind))
+		c.Count("sweeps", 1)
+		var known []Violation
+		for off := 0; off <= len(w.Input); off++ {
+			f := simio.Fault{Kind: kind, Off: off}
+			if kind == simio.FaultTransient {
+				if off >= len(w.Input) {
+					continue
+				}
+				f.Extra = minInt(extra, len(w.Input)-off)
+			}
+			vs := c16Case(c, w, env, plan, f, simio.OffAny)
+			for _, v := range vs {
+				if v.Finding == "" {
+					return []Violation{v}
+				}
+				known = append(known, v)
+			}
+		}
+		if len(known) > 0 {
+			return known[:1]
+		}
+		return nil
+	}
+	fault, class := drawStreamFault(c, w)
 	c.Note("fault: %s (class %s)", fault.String(), simio.OffClassName(class))
+	return c16Case(c, w, env, plan, fault, class)
+}
 
+// c16Case runs one (world, plan, fault) case against the fault-free run under the same plan.
+func c16Case(c *Ctx, w *world.World, env run.Env, plan simio.Plan, fault simio.Fault, class int) []Violation {
 	// fault-free reference under the same delivery plan
 	env.Apply()
 	rrd := simio.NewReader(w.Input, plan)
